@@ -74,8 +74,15 @@ pub fn transports(args: &[&str]) -> Option<Vec<String>> {
     let s = AsyncStubTransport::new_ok();
     let (r, log) = rt.block_on(async { let r = s.send_raw(&env, &msg).await; (r, s.messages().await) });
     out.push(format!("{}:{}:{}", r.is_ok(), log.len() == 1 && log[0].0 == env, hex(log.first().map(|l| l.1.as_bytes()).unwrap_or_default())));
+    // a stub configured to fail reports the error and still records what it was handed, the sync and the tokio one alike
     let s = StubTransport::new_error();
-    out.push(format!("{}", s.send_raw(&env, &msg).is_err()));
+    let r = s.send_raw(&env, &msg);
+    let log = s.messages();
+    let se = format!("{}:{}:{}", r.is_err(), log.len() == 1 && log[0].0 == env, hex(log.first().map(|l| l.1.as_bytes()).unwrap_or_default()));
+    let s = AsyncStubTransport::new_error();
+    let (r2, log) = rt.block_on(async { let r = s.send_raw(&env, &msg).await; (r, s.messages().await) });
+    let ae = format!("{}:{}:{}", r2.is_err(), log.len() == 1 && log[0].0 == env, hex(log.first().map(|l| l.1.as_bytes()).unwrap_or_default()));
+    out.push(format!("{};{};{}", r.is_err(), se, ae));
 
     // file, with envelope
     let d = workdir("fs")?;
